@@ -14,7 +14,6 @@ import logging  # noqa: E402
 logging.disable(logging.CRITICAL)
 import multiprocessing  # noqa: E402
 
-multiprocessing.set_start_method("fork", force=True)
 import gaftools.cli.realign as R  # noqa: E402
 
 parent = os.getpid()
